@@ -9,6 +9,7 @@ import (
 	"os"
 	"path/filepath"
 	"sort"
+	"strings"
 	"testing"
 	"time"
 
@@ -160,7 +161,15 @@ func TestC04(t *testing.T) {
 							o.Mode, o.D = []string{"EX", "PX"}[rng.Intn(2)], ms(60+rng.Intn(100))
 						}
 						op = "put"
-						rep = p.Put(ctx, "c04", key, fmt.Sprintf("v%d-%s", j, key), o)
+						val := fmt.Sprintf("v%d-%s", j, key)
+						if cfgc.T > 0 && rng.Intn(3) == 0 {
+							// an entry about as large as a storage table can hold: stored size = key + value + 29 bytes of
+							// metadata, from 34 bytes under the table size to 3 bytes over it
+							if n := cfgc.T - 29 - len(key) + 3 - rng.Intn(38); n > len(val) {
+								val += strings.Repeat("b", n-len(val))
+							}
+						}
+						rep = p.Put(ctx, "c04", key, val, o)
 						if rep.Ret == "ok" {
 							expiresAt = 0
 							if o.Mode != "" {
